@@ -3,7 +3,7 @@
    (contract, deliver_one, cover, justified, sound_along); proofs: Proofs/ContractProofs.v. *)
 Require Import WD.Base.Prelude WD.Base.BStr WD.Model.SubEvents WD.Model.Emitter WD.Model.Fs WD.Model.Reader
                WD.Model.DelayQueue WD.Model.Grouping WD.Model.Pipeline WD.Model.Contract.
-Require Import WD.Proofs.ContractProofs WD.Proofs.TieProofs WD.Proofs.MoveOutProofs.
+Require Import WD.Proofs.ContractProofs WD.Proofs.TieProofs WD.Proofs.MoveOutProofs WD.Proofs.CoverProofs WD.Proofs.ReplaceProofs.
 
 (* ================================================================== soundness: shape of what [emit] produces *)
 (* Hold for every item, every configuration, every content oracle - no hypothesis. *)
@@ -195,21 +195,44 @@ Theorem C03_contract_rename_dir : forall C full w k r, k_queue k = [] -> pend r 
 Proof. exact contract_rename_dir. Qed.
 Print Assumptions C03_contract_rename_dir.
 
-(* not proved: a directory that replaces an (empty) directory - the victim's IN_ATTRIB / IN_DELETE_SELF / IN_IGNORED
-   are read after the reader has re-keyed its tables for the move *)
-Definition C03_contract_rename_dir_replacing_full : Prop := forall C full w k r, k_queue k = [] -> pend r = None ->
+(* A directory of the tree renamed over an EMPTY directory of the tree (recursive watch; both names inside the scope, so the
+   replaced directory has a watch of its own): moved + both parents modified + one synthetic moved per descendant +
+   DirModified(q) made from the kernel's IN_ATTRIB on the replaced directory (its IN_DELETE_SELF and IN_IGNORED produce
+   nothing).  The victim's three records are read AFTER the reader has re-keyed its tables for the move, so local [cover]
+   facts do not suffice: the hypothesis is c02p's synchronisation invariant [RSync] (well-formed tree, tables and kernel
+   watches in bijection with the directories in scope, kernel queue empty, nothing pending), and the watch-state side is
+   c02p's rename_dir_rekey (C02_step_rename_dir_over).  As for C03_contract_rename_dir_tree, that os.walk under the new
+   name finds what it found under the old name is a hypothesis. *)
+Theorem C03_contract_rename_dir_replacing : forall C full w k r p q w' ep v,
+  RSync C w k r -> npath p -> npath q -> c_recursive C = true -> c_mask C = WATCHDOG_ALL ->
+  apply_op w (Rename p q) = Some w' ->
+  flookup p (w_fs w) = Some ep -> f_dir ep = true -> scope C p -> p <> c_root C -> scope C q -> q <> c_root C ->
+  flookup q (w_fs w) = Some v -> f_dir v = true ->
+  content (w_fs w') q = content (w_fs w) p ->
+  exists evs, deliver_one C full w k r (Rename p q) = Some evs /\
+    collapse evs = collapse (contract (c_recursive C) full (c_root C) (w_fs w) (Rename p q)).
+Proof. exact contract_rename_dir_over. Qed.
+Print Assumptions C03_contract_rename_dir_replacing.
+
+(* The other case of a directory replacing an empty directory: the replaced directory has no watch of its own (non-recursive
+   watch, or the target lies outside the scope) - the kernel reports nothing about it and the operation meets the contract
+   of a rename onto a free name; local [cover] hypotheses as for C03_contract_rename_dir_tree. *)
+Theorem C03_contract_rename_dir_replacing_unwatched : forall C full w k r, k_queue k = [] -> pend r = None ->
   forall dp np dq nq w',
   dp <> [] -> last_is_sep dp = false -> valid_name np = true ->
   dq <> [] -> last_is_sep dq = false -> valid_name nq = true ->
   cover C r k (w_fs w) dp -> cover C r k (w_fs w) dq ->
-  cover C r k (w_fs w) (dp ++ sep :: np) -> cover C r k (w_fs w) (dq ++ sep :: nq) ->
   fisdir (dp ++ sep :: np) (w_fs w) = true -> fisdir (dq ++ sep :: nq) (w_fs w) = true ->
+  watch_of_ino k (ino_of (w_fs w) (dq ++ sep :: nq)) = None ->
+  (c_recursive C = false \/ in_scope (c_recursive C) (c_root C) (dq ++ sep :: nq) = false) ->
   content (w_fs w') (dq ++ sep :: nq) = content (w_fs w) (dp ++ sep :: np) ->
   wf_tree (content (w_fs w) (dp ++ sep :: np)) = true ->
   apply_op w (Rename (dp ++ sep :: np) (dq ++ sep :: nq)) = Some w' ->
   exists evs, deliver_one C full w k r (Rename (dp ++ sep :: np) (dq ++ sep :: nq)) = Some evs /\
     collapse evs = collapse (contract (c_recursive C) full (c_root C) (w_fs w)
                                       (Rename (dp ++ sep :: np) (dq ++ sep :: nq))).
+Proof. exact contract_rename_dir_over_unwatched. Qed.
+Print Assumptions C03_contract_rename_dir_replacing_unwatched.
 
 (* ================================================================== history-level soundness *)
 (* Every event queued along any history of the pipeline model is justified by an operation executed before it. *)
@@ -459,7 +482,7 @@ Proof.
   split; [apply not_under_sound; vm_compute; reflexivity|]. split; vm_compute; reflexivity.
 Qed.
 
-(* the directory-replacing rename (statement C03_contract_rename_dir_replacing_full) on the example world:
+(* the directory-replacing rename from outside (the replaced directory is watched, the moved one is not) on the example world:
    /O/z -> /R/d/e, an empty directory; the victim's IN_ATTRIB shows up as DirModified(/R/d/e) *)
 Example C03_contract_rename_dir_replacing_example :
   ex_ok true false [ex_O; ex_Rd; ex_Oz; ex_Rde] (Rename ex_Oz ex_Rde)
@@ -487,3 +510,37 @@ Example C03_moveout_nonvacuous :
     exists r' k', read_batch (pc_reader fx_cfg) (w_fs (p_world s)) (p_r s, p_k s, []) (e :: b) = Done (r', k', []) /\
                   wfp r' = [(ph_R, 1%N)] /\ has_wd k' 2 = false.
 Proof. exact moveout_nonvacuous. Qed.
+
+(* C03_contract_rename_dir_replacing: world /s/R (watched, recursive), /s/O, /s/R/d (directory), /s/R/d/f (file), /s/R/e (empty
+   directory); state right after Inotify.__init__ (RSync by C02_construct_cover); mv /s/R/d /s/R/e delivers DirMoved, both
+   parents modified, the synthetic FileMoved(/s/R/d/f -> /s/R/e/f) and DirModified(/s/R/e) - by [deliver_one] and by the
+   Pipeline model run AOp; ARead; ATick; AEmit x4 *)
+Example C03_contract_rename_dir_replacing_nonvacuous :
+  exists r k w',
+    construct (cfgx true true) kinit (w_fs rp_world) = Some (r, k) /\ RSync (cfgx true true) rp_world k r /\
+    npath rp_d /\ npath rp_e /\ scope (cfgx true true) rp_d /\ scope (cfgx true true) rp_e /\
+    apply_op rp_world (Rename rp_d rp_e) = Some w' /\
+    fisdir rp_d (w_fs rp_world) = true /\ fisdir rp_e (w_fs rp_world) = true /\
+    content (w_fs w') rp_e = content (w_fs rp_world) rp_d /\
+    deliver_one (cfgx true true) false rp_world k r (Rename rp_d rp_e) = Some rp_events /\
+    collapse rp_events = collapse (contract true false pR (w_fs rp_world) (Rename rp_d rp_e)) /\
+    exists s0 s obs, pinit (Px true) rp_world = Some s0 /\
+      prun (Px true) s0 (tie_history (Px true) s0 (Rename rp_d rp_e) 4) [] = Done (s, obs) /\ p_out s = rp_events.
+Proof. exact replace_nonvacuous. Qed.
+
+(* C03_contract_rename_dir_replacing_unwatched: /R/d moved over the empty directory /O/z2 outside the scope (recursive watch) *)
+Example C03_contract_rename_dir_replacing_unwatched_nonvacuous :
+  let t := ex_fs ++ [{| f_path := ex_sl ex_O 119; f_ino := 30; f_dir := true |}] in
+  let w := {| w_fs := t; w_next_ino := 40 |} in
+  let q := ex_sl ex_O 119 in
+  fisdir q t = true /\ watch_of_ino (ex_k true) (ino_of t q) = None /\ in_scope true ex_R q = false /\
+  Forall (cover (ex_C true) (ex_r true) (ex_k true) t) [ex_R; ex_O] /\
+  (exists w', apply_op w (Rename ex_Rd q) = Some w' /\ content (w_fs w') q = content t ex_Rd) /\
+  deliver_one (ex_C true) false w (ex_k true) (ex_r true) (Rename ex_Rd q)
+    = Some [mk DirDeleted ex_Rd []; parent_modified ex_Rd] /\
+  contract true false ex_R t (Rename ex_Rd q) = [mk DirDeleted ex_Rd []; parent_modified ex_Rd].
+Proof.
+  vm_compute. repeat split.
+  - repeat constructor; eexists; repeat split.
+  - eexists. split; reflexivity.
+Qed.
